@@ -104,8 +104,28 @@ fn overlay_run(a: &[&str]) -> String {
     format!("val {}", out.join(" "))
 }
 
+/// sorted_to_db <p0> <p1> <payload bytes...>  -> `val <len> <k0> <k1> <bytes from offset 22...>`
+fn sorted_to_db(a: &[&str]) -> String {
+    use radix_substate_store_interface::db_key_mapper::*;
+    let b: Vec<u8> = a.iter().map(|x| x.parse().unwrap()).collect();
+    let k = SpreadPrefixKeyMapper::sorted_to_db_sort_key(&([b[0], b[1]], b[2..].to_vec()));
+    let tail: Vec<String> = k.0.iter().skip(22).map(|x| x.to_string()).collect();
+    format!("val {} {} {} {}", k.0.len(), k.0[0], k.0[1], tail.join(" "))
+}
+
+/// sorted_from_db <db key bytes...>  -> `val <q0> <q1> <payload len> <payload bytes...>`
+fn sorted_from_db(a: &[&str]) -> String {
+    use radix_substate_store_interface::db_key_mapper::*;
+    let b: Vec<u8> = a.iter().map(|x| x.parse().unwrap()).collect();
+    let (q, c) = SpreadPrefixKeyMapper::sorted_from_db_sort_key(&DbSortKey(b));
+    let pay: Vec<String> = c.iter().map(|x| x.to_string()).collect();
+    format!("val {} {} {} {}", q[0], q[1], c.len(), pay.join(" "))
+}
+
 fn run(a: &[&str]) -> String {
     match a[0] {
+        "sorted_to_db" => sorted_to_db(&a[1..]),
+        "sorted_from_db" => sorted_from_db(&a[1..]),
         "overlay_run" => overlay_run(&a[1..]),
         _ => "unknown-op".to_string(),
     }
